@@ -28,6 +28,11 @@ def run(tier):
     rng = base.rng("c08")
     cs = configs(tier, rng)
     guard.model_check(R, [c for c in cs if c["breaker"]][:: (3 if quick else 1)][: (4 if quick else 40)])
+    from . import apalache
+    ap = apalache.inductive("MC_GuardApa", "ConstInit", "Init", "IndInit", "IndInv")
+    R.cov["apalache_inductive_invariant"] = dict(ap, query="NoEarlyTrip and TripsByThreshold in state form (failures <= inj, consec <= failures, not closed => inj >= Threshold, failures >= Threshold => not closed), Threshold 1..10^6 symbolic, all gate logics, breaker / cache on and off")
+    if not (ap["base"] and ap["step"]):
+        raise base.MachineryError("GuardLoop.tla: IndInv is not inductive (Apalache): %s" % ap)
     depth = 8 if quick else 10
     with cf.ProcessPoolExecutor(max_workers=8) as ex:
         res = list(ex.map(guard.explore_cfg, [(c, depth, base.seed(), CLAUSES) for c in cs]))
